@@ -46,10 +46,17 @@ Qed.
 Section R.
 Context {T : Type}.
 
+Lemma region_at_slow_eq (a : Z) (d : list Z) (t : T) x : region_at a d t x = region_at_slow a d t x.
+Proof.
+  unfold region_at, region_at_slow. destruct (Z.leb_spec a x); [|reflexivity]. cbn [andb].
+  destruct (Z.ltb_spec (x - a) (Z.of_nat (length d))); [reflexivity|].
+  assert (N : nth_error d (Z.to_nat (x - a)) = None) by (apply nth_error_None; lia). rewrite N. reflexivity.
+Qed.
+
 Lemma region_at_none (a : Z) (d : list Z) (t : T) x :
   region_at a d t x = None <-> (x < a \/ a + len d <= x).
 Proof.
-  unfold region_at, len. destruct (Z.leb_spec a x) as [H|H]; [|split; [lia|reflexivity]].
+  rewrite region_at_slow_eq. unfold region_at_slow, len. destruct (Z.leb_spec a x) as [H|H]; [|split; [lia|reflexivity]].
   destruct (nth_error d (Z.to_nat (x - a))) eqn:E.
   - split; [discriminate|]. intros [?|?]; [lia|].
     assert (nth_error d (Z.to_nat (x - a)) = None) by (apply nth_error_None; lia). congruence.
@@ -59,7 +66,7 @@ Qed.
 Lemma region_at_some (a : Z) (d : list Z) (t : T) x :
   a <= x < a + len d -> exists b, nth_error d (Z.to_nat (x - a)) = Some b /\ region_at a d t x = Some (b, t).
 Proof.
-  intros H. unfold region_at. destruct (Z.leb_spec a x); [|lia].
+  intros H. rewrite region_at_slow_eq. unfold region_at_slow. destruct (Z.leb_spec a x); [|lia].
   destruct (nth_error d (Z.to_nat (x - a))) eqn:E; [eauto|].
   apply nth_error_None in E. unfold len in H. lia.
 Qed.
@@ -77,7 +84,7 @@ Qed.
 Lemma region_at_firstn (a k : Z) (d : list Z) (t : T) x :
   0 <= k -> region_at a (firstn_z k d) t x = if x <? a + k then region_at a d t x else None.
 Proof.
-  intros Hk. unfold region_at, firstn_z. destruct (Z.leb_spec a x) as [H|H]; [|destruct (_ <? _); reflexivity].
+  intros Hk. rewrite !region_at_slow_eq. unfold region_at_slow, firstn_z. destruct (Z.leb_spec a x) as [H|H]; [|destruct (_ <? _); reflexivity].
   rewrite nth_error_firstn'.
   destruct (Z.ltb_spec x (a + k)); destruct (Nat.ltb_spec (Z.to_nat (x - a)) (Z.to_nat k)); try reflexivity; lia.
 Qed.
@@ -85,7 +92,7 @@ Qed.
 Lemma region_at_skipn (a k : Z) (d : list Z) (t : T) x :
   0 <= k -> region_at (a + k) (skipn_z k d) t x = if a + k <=? x then region_at a d t x else None.
 Proof.
-  intros Hk. unfold region_at, skipn_z. destruct (Z.leb_spec (a + k) x) as [H|H]; [|reflexivity].
+  intros Hk. rewrite !region_at_slow_eq. unfold region_at_slow, skipn_z. destruct (Z.leb_spec (a + k) x) as [H|H]; [|reflexivity].
   destruct (Z.leb_spec a x); [|lia]. rewrite nth_error_skipn'.
   replace (Z.to_nat k + Z.to_nat (x - (a + k)))%nat with (Z.to_nat (x - a)) by lia. reflexivity.
 Qed.
@@ -699,7 +706,7 @@ Proof.
     destruct (Z.leb_spec x y); destruct (Z.ltb_spec y (x + 4)); cbn [andb].
     + destruct (Z.leb_spec a y); destruct (Z.ltb_spec y (a + len d)); try lia; cbn [andb].
       destruct (abs_in_section s x y a d p W F ltac:(lia)) as (b & _ & A). rewrite A.
-      unfold region_at. destruct (Z.leb_spec a y); [|lia].
+      rewrite region_at_slow_eq. unfold region_at_slow. destruct (Z.leb_spec a y); [|lia].
       rewrite nth_error_patch by lia. rewrite Lb.
       destruct (Z.ltb_spec (Z.of_nat (Z.to_nat (y - a))) (x - a)); [lia|].
       destruct (Z.ltb_spec (Z.of_nat (Z.to_nat (y - a))) (x - a + 4)); [|lia].
@@ -709,14 +716,14 @@ Proof.
       apply nth_error_None in E. assert (length (mem_bytes32 be v) = 4%nat) by (destruct be; reflexivity). lia.
     + destruct (Z.leb_spec a y); destruct (Z.ltb_spec y (a + len d)); cbn [andb]; try reflexivity.
       destruct (abs_in_section s x y a d p W F ltac:(lia)) as (b & N & A). rewrite A.
-      unfold region_at. destruct (Z.leb_spec a y); [|lia].
+      rewrite region_at_slow_eq. unfold region_at_slow. destruct (Z.leb_spec a y); [|lia].
       rewrite nth_error_patch by lia. rewrite Lb.
       destruct (Z.ltb_spec (Z.of_nat (Z.to_nat (y - a))) (x - a)); [lia|].
       destruct (Z.ltb_spec (Z.of_nat (Z.to_nat (y - a))) (x - a + 4)); [lia|].
       unfold nth_z in N. destruct (Z.ltb_spec (y - a) 0); [lia|]. rewrite N. reflexivity.
     + destruct (Z.leb_spec a y); destruct (Z.ltb_spec y (a + len d)); cbn [andb]; try reflexivity.
       destruct (abs_in_section s x y a d p W F ltac:(lia)) as (b & N & A). rewrite A.
-      unfold region_at. destruct (Z.leb_spec a y); [|lia].
+      rewrite region_at_slow_eq. unfold region_at_slow. destruct (Z.leb_spec a y); [|lia].
       rewrite nth_error_patch by lia. rewrite Lb.
       destruct (Z.ltb_spec (Z.of_nat (Z.to_nat (y - a))) (x - a)); [|lia].
       unfold nth_z in N. destruct (Z.ltb_spec (y - a) 0); [lia|]. rewrite N. reflexivity.
